@@ -381,7 +381,7 @@ func (fc *FuncCtx) typeFacts() string {
 // sharesSymbol: some spec-function (sf_), struct-field (fld_) or package-variable (global_)
 // symbol of the axiom occurs in the text.
 func sharesSymbol(axiom, text string) bool {
-	for _, pre := range []string{"sf_", "fld_", "global_"} {
+	for _, pre := range []string{"sf_", "fld_", "global_", "smapref!"} {
 		i := 0
 		for {
 			j := strings.Index(axiom[i:], pre)
@@ -390,7 +390,7 @@ func sharesSymbol(axiom, text string) bool {
 			}
 			j += i
 			k := j
-			for k < len(axiom) && (axiom[k] == '_' || axiom[k] == '.' || axiom[k] >= 'a' && axiom[k] <= 'z' || axiom[k] >= 'A' && axiom[k] <= 'Z' || axiom[k] >= '0' && axiom[k] <= '9') {
+			for k < len(axiom) && (axiom[k] == '_' || axiom[k] == '.' || axiom[k] == '!' || axiom[k] >= 'a' && axiom[k] <= 'z' || axiom[k] >= 'A' && axiom[k] <= 'Z' || axiom[k] >= '0' && axiom[k] <= '9') {
 				k++
 			}
 			if strings.Contains(text, axiom[j:k]) {
